@@ -626,3 +626,104 @@ def rule_order_arms(facts):
                      "no pending -> new error; decided by path-sensitive provenance of the stored value")
     r.nontrivial = 10
     return r
+
+
+# ====================================================================== CALL-PROV tables (small unsafe primitives)
+
+def call_prov_of(facts, b):
+    """Each call of body `b` as 'callee(arg provenance, ..) [always|sometimes]', plus what closures passed along do."""
+    pv = Prov(b)
+    rets = set(mirq.return_blocks(b))
+    out = []
+    for i, bl, t, f in calls(b):
+        if f is None:
+            nm = "<indirect>"
+        else:
+            nm = f["name"]
+            if nm in ("deref", "deref_mut", "borrow", "borrow_mut", "as_ref", "as_mut", "into_iter") and f["krate"] != "chumsky":
+                continue
+            if "precondition_check" in nm or "panic" in callee_path(f):
+                continue
+        args = ", ".join(fmt_roots(pv.of_operand(a["op"])) for a in t["args"])
+        always = not (mirq.reachable(b, 0, avoid={i}) & rets)
+        out.append("%s(%s) [%s]" % (nm, args, "always" if always else "sometimes"))
+    for c in mirq.closure_bodies(facts, b, recursive=False):
+        cpv = Prov(c)
+        for i, bl, t, f in calls(c):
+            if f is None or f["name"] in ("deref", "deref_mut"):
+                continue
+            out.append("closure: %s(%s)" % (f["name"], ", ".join(fmt_roots(cpv.of_operand(a["op"])) for a in t["args"])))
+    return sorted(out)
+
+
+def rule_container_prov(facts):
+    import container_table as CT
+    r = RuleResult("CONTAINER-PROV")
+    n = 0
+    comp = {}
+    for b in facts.bodies:
+        if b["kind"] == "Closure":
+            continue
+        tr = b.get("impl_trait")
+        if tr not in ("container::ContainerExactly", "private::MaybeUninitExt"):
+            continue
+        key = b["qname"]
+        n += 1
+        got = call_prov_of(facts, b)
+        comp[key] = got
+        want = CT.CALLS.get(key)
+        ok = want is not None and sorted(want) == got
+        r.ob(ok)
+        if not ok:
+            r.violations.append(V("CONTAINER-PROV", key, "fixed-size container primitive",
+                                  "%s must perform exactly the reviewed operations on the reviewed operands (which slots are written / "
+                                  "dropped / taken, unconditionally); computed %s, expected %s" % (key, got, want), *loc(b)))
+    for key in CT.CALLS:
+        if key not in comp:
+            r.errors.append("anchor %s: no such body" % key)
+    r.explanation = ("the %d ContainerExactly / MaybeUninitExt primitives (uninit, write slot i, drop slots ..i, take all) perform exactly the "
+                     "reviewed calls on the reviewed operands, each unconditionally (spec/container_table.py): write(i) touches slot i, "
+                     "drop_before(i) drops the range ..i from slot 0, Box<C> forwards to C on every path" % n)
+    r.nontrivial = n
+    r.info = {"computed": comp}
+    r.samples = [{k: v} for k, v in list(comp.items())[:3]]
+    r.require_floor(n, facts, "CONTAINER-PROV.bodies", "container primitive bodies")
+    return r
+
+
+# ====================================================================== NONCONSUMPTION forwarding (progress assertions)
+
+def rule_nonconsumption(facts):
+    """An IterParser that forwards to an inner IterParser must forward its NONCONSUMPTION_IS_OK, otherwise the
+    debug progress assertions of collect/foldl/foldr fire on well-formed grammars (a panic: C20)."""
+    r = RuleResult("NONCONSUMPTION-FWD")
+    n = 0
+    for im in facts.impls:
+        if im.get("trait") != "IterParser":
+            continue
+        adt = im.get("self_adt")
+        nexts = [b for b in facts.bodies if b.get("impl_path") == im["path"] and b["name"] == "next" and b["kind"] != "Closure"]
+        inner = False
+        for b in nexts:
+            for _, bl, t, f in calls(b):
+                if f is not None and f.get("trait") in ("IterParser", "ConfigIterParser") and f["name"] in ("next", "next_cfg"):
+                    inner = True
+            for c in mirq.closure_bodies(facts, b):
+                for _, bl, t, f in calls(c):
+                    if f is not None and f.get("trait") in ("IterParser", "ConfigIterParser") and f["name"] in ("next", "next_cfg"):
+                        inner = True
+        if not inner:
+            continue
+        n += 1
+        has = any(i["name"] == "NONCONSUMPTION_IS_OK" for i in im["items"])
+        r.ob(has)
+        if not has:
+            r.violations.append(V("NONCONSUMPTION-FWD", adt, "progress flag not forwarded",
+                                  "IterParser for %s iterates an inner IterParser but does not define NONCONSUMPTION_IS_OK (the trait default "
+                                  "is false): collect/foldl/foldr's debug progress assertion panics when the inner iterator may legitimately "
+                                  "yield without consuming" % adt, im.get("file"), im.get("line")))
+    r.explanation = "%d IterParser impls that drive an inner IterParser all define (forward) NONCONSUMPTION_IS_OK" % n
+    r.nontrivial = n
+    r.samples = [{"wrappers": n}]
+    r.require_floor(n, facts, "NONCONSUMPTION-FWD.wrappers", "IterParser wrappers")
+    return r
